@@ -718,6 +718,7 @@ class Peer:
         peer_loop_timer = LoopTimer(f'peer_main_{self.id()}', warn_threshold_ms=50)
 
         pending_read: asyncio.Future[Message] | None = None
+        unread: BaseException | None = None
 
         try:
             while not self._teardown:
@@ -790,7 +791,12 @@ class Peer:
                 if not pending_read.done():
                     pending_read.cancel()
                 elif not pending_read.cancelled():
-                    pending_read.exception()  # retrieved: the session is ending anyway
+                    unread = pending_read.exception()  # retrieved: the session is ending anyway
+
+        # the read completed while the teardown was noticed: a NOTIFICATION from the peer has ended the session
+        # already, and a received NOTIFICATION is never answered with one of ours
+        if isinstance(unread, Notification):
+            raise unread
 
         # Graceful restart handling
         log.debug(
